@@ -11,6 +11,7 @@ package main
 import (
 	"errors"
 	"io"
+	"log"
 	"os"
 	"time"
 
@@ -18,6 +19,8 @@ import (
 )
 
 var (
+	verifLogSinks = map[*os.File]bool{} // the files the standard logger's (scrubbed) output ends in
+	verifRawCheck bool
 	verifUnsafe   bool
 	verifWired    int
 	verifChecking bool
@@ -74,7 +77,15 @@ func verifOpenFile(name string, flag int, perm os.FileMode) (*os.File, error) {
 
 // every *os.File (stderr, stdout, an opened log file) is a sink
 func verifFileWrite(f *os.File, b []byte) (int, error) {
+	if verifRawCheck {
+		// a logger of its own (log.New): it may write to a file of its own (the broker's metrics
+		// log), but what it sends to the file that holds the scrubbed log must be scrubbed too
+		for i := 0; i < len(b); i++ {
+			verifapi.Assert(verifUnsafe || !verifLogSinks[f] || b[i] != 'A', "a logger created with log.New writes unscrubbed bytes to the sink of the scrubbed log")
+		}
+	}
 	if verifChecking {
+		verifLogSinks[f] = true
 		for i := 0; i < len(b); i++ {
 			verifapi.Assert(verifUnsafe || b[i] != 'A', "a logged byte reached a sink (stderr or the log file) without passing through the scrubber")
 		}
@@ -118,6 +129,19 @@ func verifSetOutput(w io.Writer) {
 	}
 }
 
+// redirect stub for log.New: every other logger the binary creates (the broker's metrics logger,
+// an http.Server's ErrorLog, ...) is observed as well
+func verifLogNew(w io.Writer, prefix string, flag int) *log.Logger {
+	verifapi.Cover("a logger of its own is created")
+	if w != nil {
+		verifRawCheck = true
+		w.Write([]byte("A 1.2.3.4\nAA\n"))
+		verifRawCheck = false
+	}
+	l := new(log.Logger)
+	return l
+}
+
 func VerifC07_MainLogWiring() {
 	verifapi.ExpectExit(func() { main() }) // a Go panic inside main() stays a violation
 	verifapi.Cover("main returned or stopped")
@@ -131,3 +155,25 @@ func verifMakeStateDir() (string, error) {
 	return "state", nil
 }
 func verifJoin(elem ...string) string { return "state/log" }
+
+// broker only (job loggers-broker): the loaders main() calls between the two logger set-ups
+func verifLoadGeoip(geoipDB string, geoip6DB string) error {
+	if verifapi.Bool("geoip.err") {
+		return verifOpenErr
+	}
+	return nil
+}
+func verifOsOpen(name string) (*os.File, error) { return verifOpenFile(name, 0, 0) }
+func verifInstallBridgeList(r io.Reader, allowed, presumed string) error {
+	if verifapi.Bool("bridgelist.err") {
+		return verifOpenErr
+	}
+	return nil
+}
+
+// job loggers-broker: main() is stopped where it starts waiting for signals (after every logger
+// and the http.Server value have been set up, before the TLS set-up and the listeners)
+func verifSignalNotify(c chan<- os.Signal, sig ...os.Signal) {
+	verifapi.Cover("main reached signal.Notify")
+	os.Exit(0)
+}
